@@ -26,7 +26,7 @@ LEVEL_NOTE = ("Order is decided in the bounded, restated form 'observed slope ov
               "and end positions stay inside the clip box; the metric is the start cell's, as the implementation documents. RK2 = midpoint rule.")
 RULE = ("cases: onestep (field x scheme x metric, 200 particles, 6 steps), order (field x scheme ladder), helper (analytical.get_velocityN ladder), e2e (ROMS files, linear field, scheme, "
         "dx != dy). Non-trivial: the field has non-zero second derivatives or time dependence so that the three schemes differ; distinct by (kind, field, scheme, metric).")
-MANDATORY = ["helper_sample_function_returning_shared_arrays", "time_step_of_odd_seconds", "e2e_reversed_time_dependent", "inactive_particles_among_the_active", "grid_corner_off_diagonal", "e2e_subgrid_off_diagonal", "onestep_EF", "onestep_RK2", "onestep_RK4", "time_dependent_field", "anisotropic_metric", "piecewise_metric", "order_EF", "order_RK2", "order_RK4",
+MANDATORY = ["field_exactly_at_rest_at_a_step", "helper_sample_function_returning_shared_arrays", "time_step_of_odd_seconds", "e2e_reversed_time_dependent", "inactive_particles_among_the_active", "grid_corner_off_diagonal", "e2e_subgrid_off_diagonal", "onestep_EF", "onestep_RK2", "onestep_RK4", "time_dependent_field", "anisotropic_metric", "piecewise_metric", "order_EF", "order_RK2", "order_RK4",
              "helper_order_1", "helper_order_2", "helper_order_4", "e2e_runs", "velocity_requests_checked"]
 ASSUMPTIONS = ["per-step displacement below about one cell (Courant <= 0.9)", "diffusion off"]
 TIMEOUT = {"quick": 900, "thorough": 3000}
@@ -101,6 +101,12 @@ def _onestep(case, V, sit, cnt, keys):
     speed = courant * min(dx, dy) / dt
     timedep = bool(rng.random() < 0.5)
     flow = rand_flow(rng, nx, ny, speed, timedep)
+    if case["idx"] % 5 == 3:
+        # a current that is uniform in space and passes through exactly zero at the fourth step (slack water): the stages later in that step are not at rest
+        ut_, vt_ = speed / (3.0 * dt), -0.6 * speed / (3.0 * dt)
+        flow = dict(kind="linear", u0=-(ut_ * (3 * float(dt))), v0=-(vt_ * (3 * float(dt))), ut=ut_, vt=vt_)
+        timedep = True
+        _bump(sit, "field_exactly_at_rest_at_a_step")
     for kx, ky in (("xc", "yc"),):
         if kx in flow:
             flow[kx] += x0
